@@ -140,7 +140,110 @@ ON_COMPLETE = dict(
     cover=["return"],
 )
 
-CONTRACTS = [GUARD, DA_FAIL, DA_CANCEL, DA_POISON, DA_CHILD, BA_FAIL, BA_CANCEL, BA_POISON, ON_COMPLETE]
+# ------------------------------------------------------------------------------------------------ execute_single: a failed request is an error under on-error=abort
+ES_ERR = {"elasticsearch.TransportError.errors": "any", "elasticsearch.TransportError.message": "any", "elasticsearch.ApiError.body": "any", "elasticsearch.ApiError.error": "any",
+          "elasticsearch.ApiError.info": "any", "elasticsearch.ApiError.status_code": "any"}
+RUNNER = {
+    "with": "transparent", "with_plain": True, "event": "run",
+    "outcomes": [
+        # the usual case: a dict of request meta-data, with or without "success" (ghost: what the runner itself reported)
+        dict(returns="dict[str,any]", tag="dict", ghost_update=[("$reported", "has(result, 'success')"), ("$succ", "result['success'] if has(result, 'success') else None")]),
+        dict(returns="tuple[any,any]", tag="tuple"),           # (weight, unit)
+        dict(returns="none", tag="other"),
+        dict(raises="elasticsearch.ConnectionError", tag="conn"),
+        dict(raises="elasticsearch.ConnectionTimeout", tag="timeout"),
+        dict(raises="elasticsearch.TransportError", tag="transport"),
+        dict(raises="elasticsearch.ApiError", tag="api"),
+        dict(raises="KeyError", tag="keyerror"),
+        dict(raises="ValueError", tag="valueerror"),
+    ],
+}
+RET = "eva(0, 0, 'dict[str,any]')"
+EXEC_SINGLE = dict(
+    target="esrally/driver/driver.py::execute_single",
+    prop="C09",
+    params={"runner": "any", "es": "any", "params": "any", "on_error": "str"},
+    fields=ES_ERR,
+    externals={
+        "runner": RUNNER,
+        "hasattr": dict(returns="bool", pure=True, uf="hasattr_uf"),
+        "*.decode": dict(returns="any"),
+        "*.read": dict(returns="any"),
+        "str": dict(returns="str", pure=True, uf="str_of_any"),
+        "list": dict(returns="any"),
+        "params.keys": dict(returns="any"),
+    },
+    locals={"error_message": "any", "request_meta_data": "dict[str,any]", "total_ops": "any", "total_ops_unit": "any"},
+    returns="tuple[any,any,dict[str,any]]",
+    ensures=[
+        # a normal return under on-error=abort means the request SUCCEEDED: the runner returned, and if it reported a "success" flag that flag is true
+        "nev() == 1",
+        "implies(on_error == 'abort', evk(0) == 'run')",
+        "implies(on_error == 'abort' and tag('dict') and $reported, bool($succ))",
+        # the meta-data handed to the sampler carries the runner's own verdict (true only if the runner did not say otherwise)
+        "has(result[2], 'success')",
+        "implies(tag('dict') and $reported, bool(result[2]['success']) == bool($succ))",
+        "implies(tag('dict') and not $reported, bool(result[2]['success']))",
+        "implies(evk(0) == 'run!', not bool(result[2]['success']))",
+        # a refused connection is fatal whatever on-error says
+        "not tag('conn')",
+    ],
+    ghost_state={"$reported": "bool", "$succ": "any"},
+    raises={
+        "RallyAssertionError": dict(ensures=["tag('conn') or on_error == 'abort'", "implies(tag('dict'), $reported and not bool($succ))", "not tag('tuple') and not tag('other')"]),
+        "SystemSetupError": dict(ensures=["tag('keyerror')"]),
+        "ValueError": dict(ensures=["tag('valueerror')"]),
+    },
+    cover=["return", "raise:RallyAssertionError", "raise:SystemSetupError"],
+)
+
+CONTRACTS = [EXEC_SINGLE, GUARD, DA_FAIL, DA_CANCEL, DA_POISON, DA_CHILD, BA_FAIL, BA_CANCEL, BA_POISON, ON_COMPLETE]
 ASSUMPTIONS = ["thespian delivers each message once and runs handlers atomically; send only appends a ghost event", "the wrapped handler f of no_retry.guard has the outcomes: returns a value, raises an Exception, raises a non-Exception BaseException (KeyboardInterrupt as representative)"]
 NOT_DECIDED = ["'in bounded time' / hang freedom and the interleaving quantifier (outside this family)", "Worker / TaskExecutionActor / TrackPreparationActor forwarding and racecontrol.race() (not yet under contract in this revision)"]
 TRUSTED = []
+
+
+def extra_checks(runner, ev):
+    """Call-site obligation (syntactic, on the real AST): in AsyncIoAdapter.run the clients' coroutines are awaited with asyncio.gather WITHOUT
+    return_exceptions and the surrounding try statement has no except clause -- so an exception of any client (on-error=abort, fatal connection
+    error, parameter source / runner raising) propagates out of run() into the worker's executor future."""
+    import ast
+    import json
+    import os
+
+    from pyvc.extract import RepoIndex
+
+    m, fn = RepoIndex().locate("esrally/driver/driver.py::AsyncIoAdapter.run")
+    bad, found = [], 0
+    for node in ast.walk(fn):
+        if isinstance(node, ast.Try):
+            calls = [c for b in node.body for c in ast.walk(b) if isinstance(c, ast.Call) and ast.unparse(c.func) == "asyncio.gather"]
+            for c in calls:
+                found += 1
+                for kw in c.keywords:
+                    if kw.arg == "return_exceptions" and not (isinstance(kw.value, ast.Constant) and kw.value.value is False):
+                        bad.append({"line": c.lineno, "problem": "asyncio.gather(.., return_exceptions=...) collects client exceptions instead of raising them", "call": ast.unparse(c)})
+                if node.handlers:
+                    bad.append({"line": node.lineno, "problem": "the try statement around asyncio.gather has except clauses: " + ", ".join(ast.unparse(h.type) if h.type else "bare" for h in node.handlers)})
+    gathers = [c for c in ast.walk(fn) if isinstance(c, ast.Call) and ast.unparse(c.func) == "asyncio.gather"]
+    for c in gathers:
+        if not any(isinstance(p_, ast.Await) and p_.value is c for p_ in ast.walk(fn)):
+            bad.append({"line": c.lineno, "problem": "asyncio.gather(..) is not awaited"})
+    cov = ev["coverage"]
+    cov["call_site_obligations"] = {"asyncio.gather in AsyncIoAdapter.run": found, "failed": bad}
+    cov["obligations"] += 1
+    cov["discharged"] += 0 if bad else 1
+    if not gathers:
+        cov["undecided_now"].append({"function": "AsyncIoAdapter.run", "kind": "vacuity", "detail": "no asyncio.gather call found"})
+        return 2
+    if bad:
+        outdir = os.path.join(os.path.dirname(os.path.dirname(os.path.abspath(__file__))), "out", "C09")
+        os.makedirs(outdir, exist_ok=True)
+        path = os.path.join(outdir, "client_exceptions_propagate.json")
+        json.dump({"property": "C09", "obligation": "C09/AsyncIoAdapter.run/client-exceptions-propagate", "target": "esrally/driver/driver.py::AsyncIoAdapter.run", "failed": bad,
+                   "verifier": "syntactic call-site obligation on the real AST"}, open(path, "w"), indent=1)
+        print(f"VIOLATION property=C09 replay={path} no-failing-input-found")
+        ev["violations"] += len(bad)
+        return 1
+    return 0
+
